@@ -154,11 +154,23 @@ def run(ck):
             n_attr += 1
             attr = H.lit_value(tups[0]['es'][0])
             used = [x.get('f') for x in walk(tups[0]['es'][1]) if x.get('k') == 'Field' and x.get('adt', '').endswith('LayoutAttributes')]
+            if not used and n['c'].get('k') == 'LetCond':
+                # `if let Some(s) = format(&self.attributes.F, d) { push((name, s)) }`: the value is what the condition bound
+                bound = {b['hid'] for b in H.pat_bindings(n['c']['pat'])}
+                rl = H.root_local(tups[0]['es'][1])
+                if rl is not None and rl.get('hid') in bound:
+                    used = list(gate)
             ok = len(gate) == 1 and used == gate and attr == gate[0].replace('_', '')
-            neg = n['c'].get('k') == 'Unary' and n['c'].get('op') == 'Not' and any(x.get('m') == 'is_empty' for x in H.calls_in(n['c']))
-            ck.ob('R12.1s', 'attribute|%s' % attr, ok and neg, L.loc(n),
-                  'attribute %s gated by !%s.is_empty() and formatted from %s' % (attr, gate, used))
+            ck.ob('R12.1s', 'attribute|%s' % attr, ok, L.loc(n),
+                  'attribute %s gated by the presence of %s and formatted from %s' % (attr, gate, used))
         ck.floor('R12.1s', n_attr, 5, 'array attributes in Layout::serialize_to_xml')
+    # what the gate may test (presence only, never the values) is C04 R4.7, on the same facts
+    import core as _core
+    import rules.c04 as c04
+
+    sh47 = _core.Shared(ck, 'R12.1s', lambda r, k: r == 'R4.7', 'C04:', ' [a stretch / minimum size that is left out of the .ui is not applied to that row or column]')
+    c04.layout_data_written(sh47, L)
+    ck.floor('R12.1s', sh47.count, 10, 'shared C04 R4.7 obligations')
 
     # ---- R12.2 item fields ----------------------------------------------------------------
     ln = L.fn('uigen::layout::LayoutItem::new')
